@@ -513,6 +513,12 @@ where
                 Ok(())
             }
             EVENT_DISCONNECTED => {
+                // Before it is safe to destroy the event, we need to synchronize with whatever
+                // accesses the receiver made before it marked the event as disconnected (e.g. it
+                // may have removed its waker). The swap above was `Relaxed`, so without this
+                // fence those accesses would race with the release of the event's storage.
+                atomic::fence(atomic::Ordering::Acquire);
+
                 // We are the last endpoint remaining, so we will clean up.
                 Err(Disconnected)
             }
